@@ -76,5 +76,18 @@ def run(ctx, rep) -> None:
             rep.violation(f'{t["id"]}: event loop stalled', payload=t)
         elif dv[t['id']] != 'ok':
             rep.violation(f'{t["id"]}: {dv[t["id"]]}', payload=t)
+    # "paused -- watch streams closed ... resumes": the watcher tasks of the handled kind in all the runs above, step by step against
+    # Streaming.tla (the stream is closed in the instant the pause reaches the task, nothing is requested while paused, after the pause
+    # the task backs off and starts over with a listing)
+    from vf import streaming
+    segs = [s_ for t in traces + dtraces for s_ in t.get('steps', []) if s_['bindable'] and s_['conf']]
+    sv = streaming.judge(segs, rep)
+    rep.evaluations += len(segs); rep.traces += len(segs)
+    rep.extra['streaming_segments'] = len(segs)
+    for s_ in segs:
+        if any(e['ev'] == 'pause' for e in s_['events']):
+            rep.nontrivial(s_['events'])
+        if sv[s_['id']]['verdict'] != 'accepted':
+            rep.violation(f'{s_["id"]}: watcher task is not a behaviour of Streaming.tla: {sv[s_["id"]]["verdict"]}', payload=s_)
     rep.sample({'scenario': traces[3]['scenario'], 'events_head': traces[3]['events'][:10]})
     rep.sample(traces[2]['events'][-4:])
